@@ -544,6 +544,18 @@ def path_value(path, ev, env0, target, upto=None):
                 k = norm_nc(n.target)
                 cur = sym.get(k, clone(n.target))
                 put(n.target, ast.BinOp(left=clone(cur), op=n.op, right=sub(n.value)))
+    if target == "<return>":
+        last = path.events[-1] if path.events else None
+        if path.term != "return" or last is None or not isinstance(last.node, ast.Return):
+            return "absent", None
+        if last.node.value is None:
+            return "value", None
+        try:
+            return "value", ev.value(sub(last.node.value), env0)
+        except NotConst as ex:
+            return "unknown", str(ex)
+        except (TypeError, ZeroDivisionError, ValueError) as ex:
+            return "unknown", type(ex).__name__
     if not stored:
         return "absent", None
     try:
@@ -552,6 +564,11 @@ def path_value(path, ev, env0, target, upto=None):
         return "unknown", str(ex)
     except (TypeError, ZeroDivisionError, ValueError) as ex:
         return "unknown", type(ex).__name__
+
+
+def path_return_value(path, ev, env0):
+    """value returned at the end of the path, with the locals assigned on the path followed (see path_value)"""
+    return path_value(path, ev, env0, "<return>")
 
 
 class _SubstText(ast.NodeTransformer):
